@@ -65,6 +65,11 @@ type FailFile struct {
 	Choices  []chooser.Choice `json:"choices"`
 	Trace    any              `json:"trace"`
 	Shrunk   bool             `json:"minimised"`
+	// TimingDependent: threads were detached during the run (they were blocked
+	// in primitives the simulator does not own, or spinning), so part of the
+	// interleaving was decided by the real scheduler: a replay follows the
+	// recorded choices leniently and may need several attempts.
+	TimingDependent bool `json:"timing_dependent,omitempty"`
 }
 
 type statsFile struct {
@@ -97,6 +102,8 @@ func main() {
 		list     = flag.Bool("list", false, "list check ids")
 		wd       = flag.Duration("watchdog", 20*time.Second, "per-step real-time limit")
 		findKF   = flag.String("find-known", "", "treat runs attributed to this known finding as failures (to minimise a witness)")
+		budget   = flag.Duration("budget", 0, "wall-clock budget for the batch (0 = none): runs after it are skipped")
+		capture  = flag.Int("capture", 0, "stream the choices of this run (1-based) to <out>/captured.jsonl as they are drawn")
 	)
 	testing.Init()
 	flag.Parse()
@@ -154,10 +161,21 @@ func main() {
 		}
 		p = &q
 	}
+	captureRun = *capture
+	wallBudget = *budget
 	os.Exit(batch(p, *runs, *seed, *out))
 }
 
+var captureRun int
+var wallBudget time.Duration
+
 func batch(p *props.Property, runs int, seed uint64, out string) int {
+	// The number of the run in progress is kept in a file, so that a crash of
+	// the whole process (a fatal error in the code under test, such as a stack
+	// overflow) can be re-executed with its choices captured.
+	idx, _ := os.OpenFile(filepath.Join(out, "runindex"), os.O_CREATE|os.O_WRONLY, 0o644)
+	runNo := 0
+	var captureFile *os.File
 	if seed == 0 {
 		seed = 0x9e3779b97f4a7c15 // rapid treats 0 as "pick a random seed"
 	}
@@ -199,9 +217,51 @@ func batch(p *props.Property, runs int, seed uint64, out string) int {
 			}
 		}()
 		rapid.Check(t, func(rt *rapid.T) {
+			if wallBudget > 0 && !st.Frozen && time.Since(start) > wallBudget {
+				// Out of time (code under test that blocks in primitives the
+				// simulator does not own makes runs hundreds of times slower):
+				// the remaining runs are skipped and the evidence says so.
+				st.Counters["runs_skipped_wall_budget_exhausted"]++
+				return
+			}
 			ch := chooser.NewRapid(rt)
 			curChooser = ch
+			if !st.Frozen {
+				runNo++
+				if idx != nil {
+					var b [8]byte
+					binary.LittleEndian.PutUint64(b[:], uint64(runNo))
+					idx.WriteAt(b[:], 0)
+				}
+				if captureRun > 0 && runNo == captureRun {
+					captureFile, _ = os.Create(filepath.Join(out, "captured.jsonl"))
+					ch.Stream = captureFile
+				}
+			}
 			o := p.Run(ch, st)
+			if sched.Tainted > 0 {
+				// A simulated thread was abandoned blocked or spinning: this
+				// process cannot go on (and cannot shrink). Report what this run
+				// showed and stop.
+				st.Record(o)
+				sf := statsFile{Property: p.ID, Seed: seed, Runs: st.Counters["runs"], Counters: st.Counters, Distinct: len(st.Hashes),
+					DistinctNT: len(st.NTHashes), Samples: st.Samples, WallS: time.Since(start).Seconds(),
+					Rule: p.Rule, Real: p.Real, Simulated: p.Simulated, Required: p.RequiredProbes}
+				if o.Violation != nil {
+					ff := &FailFile{Property: propOf(p.ID), Sub: p.ID, Seed: seed, Class: o.Violation.Class, Detail: o.Violation.Detail,
+						Hash: fmt.Sprintf("%016x", o.Hash), Choices: append([]chooser.Choice(nil), ch.Record()...), TimingDependent: true}
+					if o.Trace != nil {
+						ff.Trace = o.Trace()
+					}
+					sf.Violation, sf.Class = true, ff.Class
+					writeJSON(filepath.Join(out, "fail.json"), ff)
+					writeJSON(filepath.Join(out, "stats.json"), sf)
+					os.Exit(1)
+				}
+				writeJSON(filepath.Join(out, "stats.json"), sf)
+				fmt.Fprintln(os.Stderr, "VERIF-HARNESS: a simulated thread was abandoned (blocked outside the simulator's primitives or spinning) in a run that showed no violation")
+				os.Exit(2)
+			}
 			// The race detector is a lossy observer (four shadow slots per word,
 			// evicted pseudo-randomly depending on the process history), so the
 			// very same schedule can be flagged in one execution and not in the
@@ -228,7 +288,7 @@ func batch(p *props.Property, runs int, seed uint64, out string) int {
 				return // shrinking must not drift into a different violation
 			}
 			ff := &FailFile{Property: propOf(p.ID), Sub: p.ID, Seed: seed, Class: o.Violation.Class, Detail: o.Violation.Detail,
-				Hash: fmt.Sprintf("%016x", o.Hash), Choices: append([]chooser.Choice(nil), ch.Record()...)}
+				Hash: fmt.Sprintf("%016x", o.Hash), Choices: append([]chooser.Choice(nil), ch.Record()...), TimingDependent: o.Detached > 0}
 			if o.Trace != nil {
 				ff.Trace = o.Trace()
 			}
@@ -352,6 +412,10 @@ func doReplay(p *props.Property, path string) int {
 		attempts = 40
 	}
 	padZero = ff.Class == "hang"
+	lenient = ff.TimingDependent
+	if lenient {
+		attempts = 25
+	}
 	for a := 0; a < attempts; a++ {
 		o, diverged = replayOnce(p, ff.Choices)
 		if diverged != "" || (o.Violation != nil && o.Violation.Class == ff.Class) {
@@ -380,7 +444,7 @@ func doReplay(p *props.Property, path string) int {
 		fmt.Printf("REPLAY-MISMATCH recorded class=%s fingerprint=%s\n", ff.Class, ff.Hash)
 		return 4
 	}
-	if ff.Hash != "" && ff.Hash != h {
+	if ff.Hash != "" && ff.Hash != h && !ff.TimingDependent {
 		// Same violation, different event log: the code under test contains a
 		// source of nondeterminism the simulator does not own (for instance a
 		// map range or a pool that the overlay does not reach). The violation is
@@ -393,6 +457,7 @@ func doReplay(p *props.Property, path string) int {
 
 var exhausted bool
 var padZero bool
+var lenient bool
 
 func replayOnce(p *props.Property, cs []chooser.Choice) (o *props.Outcome, diverged string) {
 	defer func() {
@@ -410,6 +475,7 @@ func replayOnce(p *props.Property, cs []chooser.Choice) (o *props.Outcome, diver
 	}()
 	l := chooser.NewList(cs, true)
 	l.PadZero = padZero
+	l.Lenient = lenient
 	o = p.Run(l, props.NewStats())
 	return o, ""
 }
